@@ -7,6 +7,9 @@ From S4.Base Require Import Bytes.
 From S4.Spec Require Import AssembleSpec.
 From S4.Model Require Import Assemble.
 From S4.Proofs Require Import AssembleProofs AssembleTheorems.
+From S4.Spec Require Import ContainersSpec.
+From S4.Model Require Import Containers.
+From S4.Proofs Require Import ContainersGz ContainersGlue ContainersTar ContainersExamples.
 Open Scope N_scope.
 
 (* spec sanity: chunk lists exactly the blocks, and loses nothing *)
@@ -172,3 +175,341 @@ Print Assumptions contract_satisfiable_sched.
 Theorem contract_satisfiable_iblk : contract iblk_state iblk_read iblk_remaining.
 Proof. exact iblk_read_contract. Qed.
 Print Assumptions contract_satisfiable_iblk.
+
+
+(* ================================================================================================
+   WP-J — the container handling s4 does ITSELF (Model/Containers.v): what BlockReader::new derives
+   (size, mtime, where the data starts, which tar entry), against the FORMAT encoders of
+   Spec/ContainersSpec.v (RFC 1952 gzip member with every optional field; ustar archive).
+   Decoders proper and the tar crate's entry list stay oracles.
+   ================================================================================================ *)
+
+(* gzip header: for EVERY combination of FTEXT / FHCRC / FEXTRA / FNAME / FCOMMENT and every field content
+   (extra: any bytes; name, comment: any bytes but NUL) the parser returns exactly the fields and stops
+   exactly on the first byte after the header — or GzTooLong when a name / comment exceeds flate2's
+   65535-byte limit (RFC 1952 has none) *)
+Theorem gz_parse_encode_total : forall h rest,
+  gz_fields_ok h ->
+  gz_parse_header (gz_header_bytes h ++ rest)
+  = if fits (gf_name h) && fits (gf_comment h) then GOk (hdr_of h, rest) else GErr GzTooLong.
+Proof. exact ContainersGz.gz_parse_encode_total. Qed.
+Print Assumptions gz_parse_encode_total.
+
+Theorem gz_parse_encode : forall h rest,
+  gz_fields_ok h -> gz_within_flate2_limits h ->
+  gz_parse_header (gz_header_bytes h ++ rest) = GOk (hdr_of h, rest).
+Proof. exact gz_parse_encode_thm. Qed.
+Print Assumptions gz_parse_encode.
+
+Theorem gz_long_name_rejected : forall h rest,
+  gz_fields_ok h -> ~ gz_within_flate2_limits h ->
+  gz_parse_header (gz_header_bytes h ++ rest) = GErr GzTooLong.
+Proof. exact gz_long_name_rejected_thm. Qed.
+Print Assumptions gz_long_name_rejected.
+
+(* what BlockReader::new derives from one well-formed member, for every payload [plain] and whatever
+   the compressor wrote ([deflated]): size = |plain| mod 2^32 (trailer ISIZE, last 8 bytes), mtime =
+   MTIME, decoder positioned on the DEFLATE data *)
+Theorem gz_new_member : forall h deflated plain,
+  gz_fields_ok h -> gz_within_flate2_limits h ->
+  let f := gz_member h deflated plain in
+  blen f <= GZ_MAX_SZ ->
+  gz_new f = COk (mk_gzd (blen plain mod TWO32) (gf_mtime h) (crc32 plain mod TWO32)
+                         (Some (hdr_of h)) (deflated ++ gz_trailer plain)).
+Proof. exact gz_new_member_thm. Qed.
+Print Assumptions gz_new_member.
+
+(* the derived size is right exactly when the data is shorter than 4 GiB (both directions) ... *)
+Theorem gz_size_correct_iff : forall h deflated plain d,
+  gz_fields_ok h -> gz_within_flate2_limits h ->
+  blen (gz_member h deflated plain) <= GZ_MAX_SZ ->
+  gz_new (gz_member h deflated plain) = COk d ->
+  (gd_filesz d = blen plain <-> blen plain < TWO32).
+Proof. exact gz_size_correct_iff_thm. Qed.
+Print Assumptions gz_size_correct_iff.
+
+(* ... and REFUTED from 4 GiB on (gzip ISIZE is modulo 2^32; the 512 MiB guard is on the compressed
+   size).  Outside the property's quantifier only in that such files are rare; stated as is. *)
+Theorem gz_size_4gib_refuted : forall h deflated plain,
+  gz_fields_ok h -> gz_within_flate2_limits h ->
+  blen (gz_member h deflated plain) <= GZ_MAX_SZ ->
+  TWO32 <= blen plain ->
+  exists d, gz_new (gz_member h deflated plain) = COk d
+            /\ gd_filesz d = blen plain mod TWO32 /\ gd_filesz d <> blen plain.
+Proof. exact gz_size_4gib_refuted_thm. Qed.
+Print Assumptions gz_size_4gib_refuted.
+
+Theorem gz_4gib_hypotheses_satisfiable :
+  exists h deflated plain,
+    gz_fields_ok h /\ gz_within_flate2_limits h
+    /\ blen (gz_member h deflated plain) <= GZ_MAX_SZ /\ TWO32 <= blen plain.
+Proof. exact ContainersGz.gz_4gib_hypotheses_satisfiable. Qed.
+Print Assumptions gz_4gib_hypotheses_satisfiable.
+
+(* mtime(): the header's MTIME; 0 = "no time stamp" -> the .gz file's own modification time *)
+Theorem gz_mtime : forall h deflated plain d,
+  gz_fields_ok h -> gz_within_flate2_limits h ->
+  blen (gz_member h deflated plain) <= GZ_MAX_SZ ->
+  gz_new (gz_member h deflated plain) = COk d ->
+  mtime_of_header (gd_mtime d) = if gf_mtime h =? 0 then MFile else MSecs (gf_mtime h).
+Proof. exact gz_mtime_thm. Qed.
+Print Assumptions gz_mtime.
+
+(* a header flate2 cannot parse does not fail new: size from the trailer, the file's mtime, every
+   block inside the declared size is Err *)
+Theorem gz_bad_header : forall (dstate : Type) read mkdec f e bs i,
+  gz_parse_header f = GErr e -> 8 <= lenN f -> lenN f <= GZ_MAX_SZ ->
+  exists d, gz_new f = COk d /\ gd_mtime d = 0 /\ gd_header d = None
+            /\ mtime_of_header (gd_mtime d) = MFile
+            /\ gz_read_block dstate read mkdec bs f i
+               = COk (if blockoffset_last (gd_filesz d) bs <? i then BDone
+                      else if gd_filesz d =? 0 then BDone else BErr).
+Proof. exact gz_bad_header_thm. Qed.
+Print Assumptions gz_bad_header.
+
+(* whole single-member .gz reader = chunk bs plain, for every header and every contract-abiding
+   DEFLATE decoder; composition of gz_new_member with assemble_chunk_independent *)
+Theorem gz_single_member_blocks :
+  forall (dstate : Type) (read : dstate -> N -> dstate * list N) (remaining : dstate -> list N)
+         (mkdec : bytes -> dstate),
+    contract dstate read remaining ->
+    forall h deflated plain bs,
+      gz_fields_ok h -> gz_within_flate2_limits h ->
+      blen (gz_member h deflated plain) <= GZ_MAX_SZ ->
+      blen plain < TWO32 -> 0 < bs ->
+      remaining (mkdec (deflated ++ gz_trailer plain)) = plain ->
+      forall i, gz_read_block dstate read mkdec bs (gz_member h deflated plain) i
+                = COk (if (N.to_nat i <? length (chunk bs plain))%nat
+                       then BFound (nth (N.to_nat i) (chunk bs plain) []) else BDone).
+Proof. exact gz_single_member_blocks_thm. Qed.
+Print Assumptions gz_single_member_blocks.
+
+(* multi-member gzip a.gz ++ b.gz — OUTSIDE the property's quantifier (single-stream files); what the
+   code does: size from the LAST member's trailer, mtime and data from the FIRST member only *)
+Theorem gz_multi_member_new :
+  forall h1 d1 p1 h2 d2 p2,
+    gz_fields_ok h1 -> gz_within_flate2_limits h1 ->
+    let f := gz_member h1 d1 p1 ++ gz_member h2 d2 p2 in
+    blen f <= GZ_MAX_SZ ->
+    gz_new f = COk (mk_gzd (blen p2 mod TWO32) (gf_mtime h1) (crc32 p2 mod TWO32) (Some (hdr_of h1))
+                           (d1 ++ gz_trailer p1 ++ gz_member h2 d2 p2)).
+Proof. exact gz_multi_member_new_thm. Qed.
+Print Assumptions gz_multi_member_new.
+
+Theorem gz_multi_member_blocks :
+  forall (dstate : Type) (read : dstate -> N -> dstate * list N) (remaining : dstate -> list N)
+         (mkdec : bytes -> dstate),
+    contract dstate read remaining ->
+    forall h1 d1 p1 h2 d2 p2 bs,
+      gz_fields_ok h1 -> gz_within_flate2_limits h1 ->
+      let f := gz_member h1 d1 p1 ++ gz_member h2 d2 p2 in
+      blen f <= GZ_MAX_SZ -> 0 < bs ->
+      remaining (mkdec (d1 ++ gz_trailer p1 ++ gz_member h2 d2 p2)) = p1 ->
+      let n := blen p2 mod TWO32 in
+      (n <= blen p1 ->
+         forall i, gz_read_block dstate read mkdec bs f i
+                   = COk (if in_range n bs i then BFound (blk bs (firstn (N.to_nat n) p1) i) else BDone))
+      /\ (blen p1 < n -> gz_read_block dstate read mkdec bs f (blockoffset_last n bs) = COk BErr)
+      /\ (forall i b, gz_read_block dstate read mkdec bs f i = COk (BFound b) ->
+                      b = blk bs (firstn (N.to_nat n) p1) i).
+Proof. exact gz_multi_member_blocks_thm. Qed.
+Print Assumptions gz_multi_member_blocks.
+
+(* ... hence NOT transparent (outside the quantifier; reproduced on the binary: `cat a.gz b.gz`) *)
+Theorem gz_multi_member_refuted :
+  exists (h1 h2 : gz_fields) (d1 d2 p1 p2 : bytes) (bs : N) (mkdec : bytes -> sched_state) (i : N),
+    gz_fields_ok h1 /\ gz_within_flate2_limits h1 /\ gz_fields_ok h2 /\ gz_within_flate2_limits h2
+    /\ (let f := gz_member h1 d1 p1 ++ gz_member h2 d2 p2 in
+        blen f <= GZ_MAX_SZ /\ 0 < bs
+        /\ sched_remaining (mkdec (d1 ++ gz_trailer p1 ++ gz_member h2 d2 p2)) = p1
+        /\ (N.to_nat i < length (chunk bs (p1 ++ p2)))%nat
+        /\ gz_read_block sched_state sched_read mkdec bs f i
+           <> COk (BFound (nth (N.to_nat i) (chunk bs (p1 ++ p2)) []))).
+Proof. exact gz_multi_member_refuted_thm. Qed.
+Print Assumptions gz_multi_member_refuted.
+
+(* bz2 / lz4: the size is what the full pre-pass counts = the decoder's output length; bz2 refuses files
+   under 12 bytes *)
+Theorem bz2_new_size :
+  forall (dstate : Type) (read : dstate -> N -> dstate * list N) (remaining : dstate -> list N)
+         (mkdec : bytes -> dstate),
+    contract dstate read remaining ->
+    forall f, bz2_new dstate read mkdec (S (length (remaining (mkdec f)))) f
+              = if lenN f <? 12 then CErr CBz2TooSmall else COk (len (remaining (mkdec f))).
+Proof. exact bz2_new_thm. Qed.
+Print Assumptions bz2_new_size.
+
+Theorem lz4_new_size :
+  forall (dstate : Type) (read : dstate -> N -> dstate * list N) (remaining : dstate -> list N)
+         (mkdec : bytes -> dstate),
+    contract dstate read remaining ->
+    forall f, lz4_new dstate read mkdec (S (length (remaining (mkdec f)))) f = COk (len (remaining (mkdec f))).
+Proof. exact lz4_new_thm. Qed.
+Print Assumptions lz4_new_size.
+
+(* xz: the 14 header bytes s4 inspects itself; one stream then end of input gives the xz_slices blocks
+   and filesz = |plain|; any other decoder failure (multi-stream input with lzma-rs 0.3.0: outside the
+   quantifier) makes new fail *)
+Theorem xz_precheck_ok : forall s0 s1 c0 c1 c2 c3 b0 b1 rest,
+  N.land s1 0xF0 = 0 ->
+  xz_precheck (XZ_MAGIC ++ [s0; s1; c0; c1; c2; c3; b0; b1] ++ rest) = None.
+Proof. exact xz_precheck_ok_thm. Qed.
+Print Assumptions xz_precheck_ok.
+
+Theorem xz_new_single_stream : forall bs f plain,
+  0 < bs -> xz_precheck f = None ->
+  exists sl, Assemble.xz_slices bs plain = Some sl
+             /\ xz_new bs f [XzOk plain; XzEofErr] = COk (sl, len plain).
+Proof. exact xz_new_single_stream_thm. Qed.
+Print Assumptions xz_new_single_stream.
+
+Theorem xz_new_decoder_error : forall bs f outs,
+  xz_precheck f = None -> xz_new bs f (XzOtherErr :: outs) = CErr CDecoder.
+Proof. exact xz_new_decoder_error_thm. Qed.
+Print Assumptions xz_new_decoder_error.
+
+(* tar, for EVERY entry list the crate can report (directories, links, devices, unreadable entries,
+   long names already folded in): addressing selects the FIRST entry whose path equals the text after
+   the last '|' and keeps its index, header size and mtime *)
+Theorem tar_new_selects_first : forall archive member es idx e sz,
+  ~ In SUBPATH_SEP member ->
+  nth_error es idx = Some (TItem e) -> toe_path e = Some member -> toe_hsize e = Some sz ->
+  (forall j it, (j < idx)%nat -> nth_error es j = Some it -> item_path it <> Some member) ->
+  tar_new (archive ++ SUBPATH_SEP :: member) es
+  = COk (mk_tard archive (N.of_nat idx) sz (match toe_mtime e with Some m => m | None => 0 end)).
+Proof. exact tar_new_selects_first_thm. Qed.
+Print Assumptions tar_new_selects_first.
+
+(* ... and the member is then read as exactly its data bytes (no padding, nothing of its neighbours) *)
+Theorem tar_member_blocks :
+  forall (dstate : Type) (read : dstate -> N -> dstate * list N) (remaining : dstate -> list N)
+         (mkdec : bytes -> dstate),
+    contract dstate read remaining -> (forall data, remaining (mkdec data) = data) ->
+    forall archive member es idx e bs,
+      ~ In SUBPATH_SEP member -> 0 < bs ->
+      nth_error es idx = Some (TItem e) -> toe_path e = Some member ->
+      toe_hsize e = Some (len (toe_data e)) ->
+      (forall j it, (j < idx)%nat -> nth_error es j = Some it -> item_path it <> Some member) ->
+      exists d, tar_new (archive ++ SUBPATH_SEP :: member) es = COk d
+        /\ td_path d = archive /\ td_filesz d = len (toe_data e)
+        /\ forall i, tar_read_block dstate read mkdec bs es d i
+                     = if (N.to_nat i <? length (chunk bs (toe_data e)))%nat
+                       then BFound (nth (N.to_nat i) (chunk bs (toe_data e)) []) else BDone.
+Proof. exact tar_member_blocks_thm. Qed.
+Print Assumptions tar_member_blocks.
+
+(* process_path_tar lists exactly the regular entries (typeflag '0' / NUL) with a readable path and a
+   non-zero size, as archive|path *)
+Theorem process_path_tar_lists : forall archive es p,
+  In (PListed (archive ++ SUBPATH_SEP :: p)) (process_path_tar_m archive es)
+  <-> exists e, In (TItem e) es /\ tar_is_file (toe_type e) = true /\ toe_path e = Some p /\ toe_esize e <> 0.
+Proof. exact process_path_tar_lists_thm. Qed.
+Print Assumptions process_path_tar_lists.
+
+(* the richer tar model agrees with tar_open of Model/Assemble.v *)
+Theorem tar_new_refines_tar_open : forall ps es,
+  match tar_open ps es with
+  | AOk (path, idx, sz) => tar_new ps (map item_of_entry es) = COk (mk_tard path idx sz 0)
+  | AErr _ => tar_new ps (map item_of_entry es) = CErr CNoSeparator
+  | _ => False
+  end.
+Proof. exact tar_new_refines_tar_open_thm. Qed.
+Print Assumptions tar_new_refines_tar_open.
+
+(* REFUTED (known finding tar_duplicate_member_path): two members with one path are both listed, both
+   readers select the first *)
+Theorem tar_duplicate_path_refuted :
+  exists (archive p : bytes) (e1 e2 : tar_oent),
+    let es := [TItem e1; TItem e2] in
+    toe_data e1 <> toe_data e2
+    /\ process_path_tar_m archive es = [PListed (archive ++ SUBPATH_SEP :: p); PListed (archive ++ SUBPATH_SEP :: p)]
+    /\ exists d, tar_new (archive ++ SUBPATH_SEP :: p) es = COk d /\ td_index d = 0 /\ td_filesz d = len (toe_data e1).
+Proof. exact tar_duplicate_path_refuted_thm. Qed.
+Print Assumptions tar_duplicate_path_refuted.
+
+(* mtime(): header time, 0 -> the container file's; REFUTED panic-freedom for a tar header time of 2^63
+   or more (known finding tar_member_mtime_out_of_range) *)
+Theorem mtime_of_header_rule : forall m,
+  mtime_of_header m = if m =? 0 then MFile else if I64_MAX <? m then MPanic else MSecs m.
+Proof. exact mtime_of_header_thm. Qed.
+Print Assumptions mtime_of_header_rule.
+
+Theorem tar_mtime_panic_refuted : exists m, m < 2 ^ 64 /\ mtime_of_header m = MPanic.
+Proof. exact tar_mtime_panic_refuted_thm. Qed.
+Print Assumptions tar_mtime_panic_refuted.
+
+(* decompress_to_ntf: the temporary file holds exactly the decoder's output / the member's data *)
+Theorem ntf_copy_is_plain :
+  forall (dstate : Type) (read : dstate -> N -> dstate * list N) (remaining : dstate -> list N)
+         (mkdec : bytes -> dstate),
+    contract dstate read remaining ->
+    forall src, ntf_copy dstate read mkdec (S (length (remaining (mkdec src)))) src = COk (remaining (mkdec src)).
+Proof. exact ntf_copy_thm. Qed.
+Print Assumptions ntf_copy_is_plain.
+
+Theorem ntf_tar_member :
+  forall (dstate : Type) (read : dstate -> N -> dstate * list N) (remaining : dstate -> list N)
+         (mkdec : bytes -> dstate),
+    contract dstate read remaining -> (forall data, remaining (mkdec data) = data) ->
+    forall archive member es idx e,
+      ~ In SUBPATH_SEP member ->
+      nth_error es idx = Some (TItem e) -> toe_path e = Some member -> toe_hsize e <> None ->
+      (forall j it, (j < idx)%nat -> nth_error es j = Some it -> item_path it <> Some member) ->
+      ntf_tar dstate read mkdec (S (length (toe_data e))) (archive ++ SUBPATH_SEP :: member) es
+      = COk (Some (toe_data e,
+                   let m := match toe_mtime e with Some m => m | None => 0 end in
+                   if m =? 0 then None else Some (seconds_to_systemtime m))).
+Proof. exact ntf_tar_thm. Qed.
+Print Assumptions ntf_tar_member.
+
+(* ---- tar FORMAT: the reference entry parser (transcription of the tar crate's next_entry_raw and
+   header accessors for plain old / ustar / gnu headers; tied to the crate's own listing by run B)
+   inverts the ustar encoder for EVERY list of entries: path (prefix/name), typeflag, size and mtime
+   (octal), the position of the data (512-byte header, data rounded up to 512), and exactly the data *)
+Theorem tar_ref_encode : forall es,
+  Forall tar_ent_plain es -> tar_ref_list (tar_archive es) = ritems_from 0 es.
+Proof. exact tar_ref_encode_thm. Qed.
+Print Assumptions tar_ref_encode.
+
+Theorem tar_member_data : forall es k e,
+  Forall tar_ent_plain es -> nth_error es k = Some e ->
+  exists pos, nth_error (tar_ref_list (tar_archive es)) k
+              = Some (RItem (tar_path e) (te_type e) (te_size e) (Some (te_mtime e)) pos (te_data e)).
+Proof. exact tar_member_data_thm. Qed.
+Print Assumptions tar_member_data.
+
+(* from the archive BYTES to the blocks: the member addressed as archive|path (first entry with that
+   path) is read as chunk bs (its data) with its header size and mtime, whatever entries surround it *)
+Theorem tar_archive_member_blocks :
+  forall (dstate : Type) (read : dstate -> N -> dstate * list N) (remaining : dstate -> list N)
+         (mkdec : bytes -> dstate),
+    contract dstate read remaining -> (forall data, remaining (mkdec data) = data) ->
+    forall archive es k e bs,
+      Forall tar_ent_plain es -> nth_error es k = Some e ->
+      ~ In SUBPATH_SEP (tar_path e) -> 0 < bs ->
+      (forall j e', (j < k)%nat -> nth_error es j = Some e' -> tar_path e' <> tar_path e) ->
+      let items := map ritem_to_item (tar_ref_list (tar_archive es)) in
+      exists d, tar_new (archive ++ SUBPATH_SEP :: tar_path e) items = COk d
+        /\ td_index d = N.of_nat k /\ td_filesz d = len (te_data e) /\ td_mtime d = te_mtime e
+        /\ forall i, tar_read_block dstate read mkdec bs items d i
+                     = if (N.to_nat i <? length (chunk bs (te_data e)))%nat
+                       then BFound (nth (N.to_nat i) (chunk bs (te_data e)) []) else BDone.
+Proof. exact tar_archive_member_blocks_thm. Qed.
+Print Assumptions tar_archive_member_blocks.
+
+(* ... for EVERY member when the member paths are unique (positive side of tar_duplicate_path_refuted) *)
+Theorem tar_archive_member_blocks_nodup :
+  forall (dstate : Type) (read : dstate -> N -> dstate * list N) (remaining : dstate -> list N)
+         (mkdec : bytes -> dstate),
+    contract dstate read remaining -> (forall data, remaining (mkdec data) = data) ->
+    forall archive es k e bs,
+      Forall tar_ent_plain es -> NoDup (map tar_path es) -> nth_error es k = Some e ->
+      ~ In SUBPATH_SEP (tar_path e) -> 0 < bs ->
+      let items := map ritem_to_item (tar_ref_list (tar_archive es)) in
+      exists d, tar_new (archive ++ SUBPATH_SEP :: tar_path e) items = COk d
+        /\ td_index d = N.of_nat k /\ td_filesz d = len (te_data e) /\ td_mtime d = te_mtime e
+        /\ forall i, tar_read_block dstate read mkdec bs items d i
+                     = if (N.to_nat i <? length (chunk bs (te_data e)))%nat
+                       then BFound (nth (N.to_nat i) (chunk bs (te_data e)) []) else BDone.
+Proof. exact tar_archive_member_blocks_nodup_thm. Qed.
+Print Assumptions tar_archive_member_blocks_nodup.
